@@ -627,6 +627,19 @@ def discharge_by_guard(p, s):
             # c + 1 where c < bound was just tested (same integer type): c + 1 <= bound, representable
             a_, b_ = s.t["ops"]
             c_ = b_.get("const")
+            if c_ and c_.get("kind") == "int" and c_.get("value") == 1 and len(s.ops) >= 1:
+                # i + 1 where i is an item of a half-open integer range (reversed or not): i < end <= MAX of the same type
+                e_ = deep_strip(s.ops[0])
+                while e_[0] == "field" and e_[2] == "0" and deep_strip(e_[1])[0] == "as":
+                    e_ = deep_strip(e_[1])
+                if e_[0] == "as" and e_[2] == "Some":
+                    c2_ = deep_strip(e_[1])
+                    if c2_[0] == "call" and c2_[1] == "core::iter::traits::iterator::Iterator::next" and c2_[2]:
+                        it_ = deep_strip(c2_[2][0])
+                        while it_[0] == "call" and it_[1].rsplit("::", 1)[-1] in ("rev", "into_iter", "iter", "by_ref", "deref", "borrow_mut", "deref_mut") and it_[2]:
+                            it_ = deep_strip(it_[2][0])
+                        if it_[0] == "agg" and isinstance(it_[1], str) and it_[1].endswith("::Range"):
+                            return "item of a half-open range plus one: every item is strictly below the range's end, which has the item's own type"
             l_ = _local_of(a_)
             if c_ and c_.get("kind") == "int" and c_.get("value") == 1 and l_ is not None:
                 l_ = _root_local(fn, l_)
